@@ -6,20 +6,24 @@ package main
 import (
 	"fmt"
 	"go/token"
+	"strings"
 )
 
 type shadow struct {
 	wT    int // last writer thread (-1 none)
 	wC    int
 	wPos  token.Pos
+	wFn   string
 	reads map[int]int // thread -> clock of last read
 	rPos  map[int]token.Pos
+	rFn   map[int]string
 }
 
 type raceState struct {
 	cells  map[*Value]*shadow
 	races  map[string]bool
 	atomic bool // current access is an atomic intrinsic
+	atoms  map[*Value]*[]int
 }
 
 func newRaceState() *raceState {
@@ -53,8 +57,11 @@ func (th *Thread) tick() {
 
 func (r *raceState) fork(parent, child *Thread) {
 	if parent != nil {
-		parent.tick()
+		if len(parent.vc) <= parent.id {
+			parent.tick()
+		}
 		vcJoin(&child.vc, parent.vc)
+		parent.tick() // what the parent does from now on is not ordered before the child
 	}
 	child.tick()
 }
@@ -66,14 +73,20 @@ func (r *raceState) acquire(t *Thread, vc *[]int) {
 }
 
 func (r *raceState) release(t *Thread, vc *[]int) {
-	t.tick()
+	if len(t.vc) <= t.id {
+		t.tick()
+	}
 	*vc = append((*vc)[:0], t.vc...)
+	t.tick() // later events of t are not covered by this release
 }
 
-// releaseJoin: release that accumulates (read-unlock, several releasers).
+// releaseJoin: release that accumulates (read-unlock, atomics, several releasers).
 func (r *raceState) releaseJoin(t *Thread, vc *[]int) {
-	t.tick()
+	if len(t.vc) <= t.id {
+		t.tick()
+	}
 	vcJoin(vc, t.vc)
+	t.tick()
 }
 
 // access is called for every load/store of a memory cell.
@@ -93,8 +106,20 @@ func (e *Engine) access(th *Thread, addr *Value, write bool) {
 	if len(th.vc) <= th.id {
 		th.tick()
 	}
-	report := func(kind string, opos token.Pos, ot int) {
-		key := fmt.Sprintf("%s %s (thread %d) vs %s (thread %d)", kind, e.pos(th.pos), th.id, e.pos(opos), ot)
+	fname := func(t *Thread) string {
+		if t.curFn == nil {
+			return "?"
+		}
+		return t.curFn.Name()
+	}
+	inHarness := func(p token.Pos) bool {
+		return p == token.NoPos || strings.Contains(e.w.prog.Fset.Position(p).Filename, "zz_verif_")
+	}
+	report := func(kind string, opos token.Pos, ot int, ofn string) {
+		if inHarness(th.pos) || inHarness(opos) {
+			return // the harness's own bookkeeping is not the subject
+		}
+		key := fmt.Sprintf("%s in %s %s (thread %d) vs in %s %s (thread %d)", kind, fname(th), e.pos(th.pos), th.id, ofn, e.pos(opos), ot)
 		if !r.races[key] {
 			r.races[key] = true
 			e.event("race", key)
@@ -103,26 +128,29 @@ func (e *Engine) access(th *Thread, addr *Value, write bool) {
 	// write-write / write-read conflicts with last write
 	if s.wT >= 0 && s.wT != th.id && s.wC > vcGet(th.vc, s.wT) {
 		if write {
-			report("write-after-write", s.wPos, s.wT)
+			report("write-after-write", s.wPos, s.wT, s.wFn)
 		} else {
-			report("read-after-write", s.wPos, s.wT)
+			report("read-after-write", s.wPos, s.wT, s.wFn)
 		}
 	}
 	if write {
 		for t, c := range s.reads {
 			if t != th.id && c > vcGet(th.vc, t) {
-				report("write-after-read", s.rPos[t], t)
+				report("write-after-read", s.rPos[t], t, s.rFn[t])
 			}
 		}
-		s.wT, s.wC, s.wPos = th.id, th.vc[th.id], th.pos
+		s.wT, s.wC, s.wPos, s.wFn = th.id, th.vc[th.id], th.pos, fname(th)
 		s.reads = nil
 		s.rPos = nil
+		s.rFn = nil
 	} else {
 		if s.reads == nil {
 			s.reads = map[int]int{}
 			s.rPos = map[int]token.Pos{}
+			s.rFn = map[int]string{}
 		}
 		s.reads[th.id] = th.vc[th.id]
 		s.rPos[th.id] = th.pos
+		s.rFn[th.id] = fname(th)
 	}
 }
